@@ -7,12 +7,16 @@ EXTENDS ConnServe, Json
 BoolSet == {TRUE, FALSE}
 
 MkReq(v, c, k, h) == [ver |-> v, conn |-> c, kind |-> k, hclose |-> h]
-MkCfg(dk, mr, rmu, vs, kh) == [dk |-> dk, maxReqs |-> mr, rmu |-> rmu, viaServe |-> vs, keepHij |-> kh]
+MkCfg(dk, mr, rmu, vs, kh) == [dk |-> dk, maxReqs |-> mr, rmu |-> rmu, viaServe |-> vs, keepHij |-> kh, perIP |-> FALSE]
+\* perIP: MaxConnsPerIP is set and the client has an IPv4 address: the server wraps the connection in its
+\* per-IP accounting connection, which must be invisible to everything modelled here
+WithPerIP(c) == [c EXCEPT !.perIP = TRUE]
 
 AllConn == {"none", "close", "Close", "keep-alive", "Keep-Alive", "keep-alive, close", "Upgrade", "close, Upgrade"}
 
 \* --- C10: persistence.  every version x Connection value x handler close; all persistence settings
 ReqsC10 == { MkReq(v, c, "ok", h) : v \in {"1.1", "1.0"}, c \in AllConn, h \in BoolSet }
+           \cup { MkReq(v, c, "timeout", FALSE) : v \in {"1.1", "1.0"}, c \in {"none", "close", "keep-alive"} }
 CfgsC10 == { MkCfg(dk, mr, rmu, TRUE, FALSE) : dk \in BoolSet, mr \in {0, 1, 2}, rmu \in BoolSet }
 CfgsC10q == { MkCfg(dk, mr, rmu, TRUE, FALSE) : dk \in {FALSE}, mr \in {0, 2}, rmu \in BoolSet }
 
@@ -20,7 +24,8 @@ CfgsC10q == { MkCfg(dk, mr, rmu, TRUE, FALSE) : dk \in {FALSE}, mr \in {0, 2}, r
 ReqsC14 == { MkReq("1.1", "none", "ok", FALSE), MkReq("1.1", "close", "ok", FALSE),
              MkReq("1.0", "none", "ok", FALSE), MkReq("1.1", "none", "bad", FALSE),
              MkReq("1.1", "none", "hijack", FALSE), MkReq("1.1", "none", "ok", TRUE) }
-CfgsC14 == { MkCfg(FALSE, mr, rmu, vs, FALSE) : mr \in {0, 2}, rmu \in BoolSet, vs \in BoolSet }
+CfgsC14base == { MkCfg(FALSE, mr, rmu, vs, FALSE) : mr \in {0, 2}, rmu \in BoolSet, vs \in BoolSet }
+CfgsC14 == CfgsC14base \cup { WithPerIP(c) : c \in CfgsC14base }
 
 \* --- C17: hijack hand-over
 ReqsC17 == { MkReq("1.1", "none", "ok", FALSE), MkReq("1.1", "none", "hijack", FALSE),
